@@ -105,6 +105,7 @@ def cases(tier, rng):
         al, fl = rng.randrange(3), rng.randrange(2)
         yield J(rng.choice(['join_tri_pixels', 'join_tri_pixels', 'join_tri_rects']), w, al, fl, *t)
         yield J('join_tri_bbox', w, al, fl, *t)
+        yield J('join_tri_fused', w, al, fl, *t)      # C01_join: model-side evaluation of the hypothesis jt_fused
     # the hypotheses of the composition theorems hold on display-scale input (model-side evaluation; the implementation
     # side answers the constant 1): coordinates within +-2^13 before and after the move, widths 2..64
     for _ in range(n):
